@@ -270,6 +270,10 @@ Json gen_c06_cap(sim::Rng& rng, int tier, long size_cap)
         if (rng.chance(0.4)) { // input that triggers no write keeps arriving while writes are pending
             c["chatter_us"] = static_cast<long>(50 + rng.below(3000));
             c["chatter_count"] = static_cast<int>(1 + rng.below(40));
+            if (rng.chance(0.25)) { // ... in bulk: tens of KB that the worker reads in many receive calls per wake-up
+                c["chatter_bulk"] = static_cast<long>(4000 + rng.below(44000));
+                c["chatter_count"] = static_cast<int>(1 + rng.below(6));
+            }
         }
         conns.push(c);
     }
@@ -318,6 +322,12 @@ Json gen_c07(sim::Rng& rng, int tier)
         c["cmds"] = cmds;
         c["stall_ms"] = static_cast<long>(200 + rng.below(tier ? 3000 : 1500));
         c["start_us"] = 0;
+        // the stalled connection may go on sending input that asks for nothing while it does not read - a little now and then, or in bulk
+        if (rng.chance(0.5)) {
+            c["chatter_us"] = static_cast<long>(1000 + rng.below(200000));
+            c["chatter_count"] = static_cast<int>(1 + rng.below(8));
+            if (rng.chance(0.5)) c["chatter_bulk"] = static_cast<long>(4000 + rng.below(60000));
+        }
         conns.push(c);
     }
     int nb = static_cast<int>(rng.range(1, 3));
@@ -502,6 +512,10 @@ void run(const Json& plan)
         cl->chatter_ns = std::max<i64>(0, c.num("chatter_us", 0)) * 1000;
         cl->chatter_count = static_cast<int>(std::max<i64>(0, std::min<i64>(200, c.num("chatter_count", 0))));
         cl->chatter_data = "n\n";
+        if (c.num("chatter_bulk", 0) > 2) {
+            cl->chatter_data = "n" + std::string(static_cast<size_t>(std::min<i64>(c.num("chatter_bulk", 0), 100000)) - 2, 'x') + "\n";
+            if (cl->chatter_ns > 0 && cl->chatter_count > 0) r.probe("bulk-input-without-write-while-writes-pending");
+        }
         if (cl->chatter_ns > 0 && cl->chatter_count > 0) r.probe("input-without-write-while-writes-pending");
         cl->start(c.num("start_us", 0) * 1000);
         clients.push_back(cl);
